@@ -1,8 +1,509 @@
-(* C14 — lemmas and proofs. *)
+(* C14 — lemmas and proofs, part 1: products, the Horner loops of layout_right / layout_left,
+   range, injectivity, bijectivity, stride steps, layout_stride. *)
 From Coq Require Import List ZArith Bool Lia.
 From DuneV Require Import C14_Model C14_Spec.
 Import ListNotations.
 Local Open Scope Z_scope.
 
-Lemma c14_example_right : c14_map_right [2;3;4] [1;2;3] = 23.
-Proof. vm_compute. reflexivity. Qed.
+(* ------------------------------------------------------------------ products *)
+Lemma c14_fold_mul : forall E a, fold_left Z.mul E a = a * c14_prod E.
+Proof. induction E as [|e E IH]; intros a; simpl; [lia|]. rewrite IH. ring. Qed.
+
+Lemma c14_product_prod : forall E, c14_product E = c14_prod E.
+Proof. intros E. unfold c14_product. rewrite c14_fold_mul. ring. Qed.
+
+Lemma c14_prod_app : forall A B, c14_prod (A ++ B) = c14_prod A * c14_prod B.
+Proof. induction A as [|a A IH]; intros B; cbn [c14_prod app]; [ring|]. rewrite IH. ring. Qed.
+
+Lemma c14_prod_rev : forall E, c14_prod (rev E) = c14_prod E.
+Proof. induction E as [|e E IH]; simpl; [reflexivity|]. rewrite c14_prod_app, IH. simpl. ring. Qed.
+
+Lemma c14_prod_nonneg : forall E, c14_nonneg E -> 0 <= c14_prod E.
+Proof. induction 1; simpl; nia. Qed.
+
+Lemma c14_valid_length : forall idx E, c14_valid idx E -> length idx = length E.
+Proof. induction 1; simpl; congruence. Qed.
+
+Lemma c14_valid_prod_pos : forall idx E, c14_valid idx E -> 1 <= c14_prod E.
+Proof. induction 1; simpl; nia. Qed.
+
+Lemma c14_valid_nonneg : forall idx E, c14_valid idx E -> c14_nonneg E.
+Proof. induction 1; constructor; auto; lia. Qed.
+
+Lemma c14_valid_rev : forall idx E, c14_valid idx E -> c14_valid (rev idx) (rev E).
+Proof.
+  induction 1; simpl; [constructor|].
+  apply Forall2_app; auto.
+Qed.
+
+Lemma c14_valid_app : forall a b A B, c14_valid a A -> c14_valid b B -> c14_valid (a ++ b) (A ++ B).
+Proof. intros. apply Forall2_app; auto. Qed.
+
+(* ------------------------------------------------------------------ dot products *)
+Lemma c14_dot_app : forall a b c d, length a = length b ->
+  c14_dot (a ++ c) (b ++ d) = c14_dot a b + c14_dot c d.
+Proof.
+  induction a as [|x a IH]; intros [|y b] c d H; simpl in *; try discriminate; [lia|].
+  rewrite IH by lia. ring.
+Qed.
+
+Lemma c14_dot_rev : forall a b, length a = length b -> c14_dot (rev a) (rev b) = c14_dot a b.
+Proof.
+  induction a as [|x a IH]; intros [|y b] H; simpl in *; try discriminate; [reflexivity|].
+  rewrite c14_dot_app by (rewrite !rev_length; lia). rewrite IH by lia. simpl. ring.
+Qed.
+
+Lemma c14_dot_nil_r : forall a, c14_dot a [] = 0.
+Proof. destruct a; reflexivity. Qed.
+
+(* ------------------------------------------------------------------ layout_right: Horner loop = row-major formula *)
+Lemma c14_horner_fold : forall rest Et v, length rest = length Et ->
+  fold_left c14_horner_step (combine rest Et) v = v * c14_prod Et + c14_dot rest (c14_spec_strides_right Et).
+Proof.
+  induction rest as [|i rest IH]; intros [|e Et] v H; simpl in *; try discriminate; [lia|].
+  rewrite IH by lia. unfold c14_horner_step; simpl. ring.
+Qed.
+
+Lemma c14_right_formula : forall E idx, length idx = length E ->
+  c14_map_right E idx = c14_spec_right E idx.
+Proof.
+  intros [|e E] [|i idx] H; simpl in *; try discriminate; [reflexivity|].
+  unfold c14_spec_right. simpl. rewrite c14_horner_fold by lia. ring.
+Qed.
+
+(* ------------------------------------------------------------------ layout_left: the same loop on the reversed lists *)
+Lemma c14_left_as_right : forall E idx, c14_map_left E idx = c14_map_right (rev E) (rev idx).
+Proof. reflexivity. Qed.
+
+Lemma c14_strides_right_snoc : forall E e,
+  c14_spec_strides_right (E ++ [e]) = map (Z.mul e) (c14_spec_strides_right E) ++ [1].
+Proof.
+  induction E as [|x E IH]; intros e; simpl; [reflexivity|].
+  rewrite IH, c14_prod_app. simpl. f_equal. ring.
+Qed.
+
+Lemma c14_strides_left_rev : forall E a,
+  map (Z.mul a) (c14_spec_strides_right (rev E)) = rev (c14_spec_strides_left_from a E).
+Proof.
+  induction E as [|e E IH]; intros a; simpl; [reflexivity|].
+  rewrite c14_strides_right_snoc, map_app, map_map. simpl.
+  rewrite <- IH. f_equal; [|f_equal; lia].
+  apply map_ext. intros; ring.
+Qed.
+
+Lemma c14_strides_left_length : forall E a, length (c14_spec_strides_left_from a E) = length E.
+Proof. induction E; intros; simpl; auto. Qed.
+Lemma c14_strides_right_length : forall E, length (c14_spec_strides_right E) = length E.
+Proof. induction E; simpl; auto. Qed.
+
+Lemma c14_map_mul1 : forall l, map (Z.mul 1) l = l.
+Proof. induction l as [|x l IH]; [reflexivity|]. cbn [map]. rewrite IH. f_equal. ring. Qed.
+
+Lemma c14_left_formula : forall E idx, length idx = length E ->
+  c14_map_left E idx = c14_spec_left E idx.
+Proof.
+  intros E idx H. rewrite c14_left_as_right, c14_right_formula by (rewrite !rev_length; auto).
+  unfold c14_spec_right, c14_spec_left, c14_spec_strides_left.
+  pose proof (c14_strides_left_rev E 1) as R.
+  rewrite c14_map_mul1 in R.
+  rewrite R. apply c14_dot_rev. rewrite c14_strides_left_length. auto.
+Qed.
+
+(* the recursive (Horner) reading of the column-major formula, as in the doc comment of layout_left *)
+Lemma c14_dot_left_scale : forall E idx a b,
+  c14_dot idx (c14_spec_strides_left_from (a * b) E) = a * c14_dot idx (c14_spec_strides_left_from b E).
+Proof.
+  induction E as [|x E IH]; intros [|j idx] a b; cbn [c14_dot c14_spec_strides_left_from]; try ring.
+  replace (a * b * x) with (a * (b * x)) by ring. rewrite IH. ring.
+Qed.
+
+Lemma c14_spec_left_cons : forall e E i idx,
+  c14_spec_left (e :: E) (i :: idx) = i + e * c14_spec_left E idx.
+Proof.
+  intros. unfold c14_spec_left, c14_spec_strides_left. cbn [c14_dot c14_spec_strides_left_from].
+  replace (1 * e) with (e * 1) by ring. rewrite c14_dot_left_scale. ring.
+Qed.
+
+(* ------------------------------------------------------------------ range *)
+Lemma c14_spec_right_range : forall idx E, c14_valid idx E -> 0 <= c14_spec_right E idx < c14_prod E.
+Proof.
+  unfold c14_spec_right. induction 1 as [|i e idx E Hi H IH]; simpl; [lia|].
+  pose proof (c14_valid_prod_pos _ _ H). nia.
+Qed.
+
+Lemma c14_right_in_range : forall idx E, c14_valid idx E ->
+  0 <= c14_map_right E idx < c14_product E.
+Proof.
+  intros. rewrite c14_right_formula, c14_product_prod by (eapply c14_valid_length; eauto).
+  apply c14_spec_right_range; auto.
+Qed.
+
+Lemma c14_left_in_range : forall idx E, c14_valid idx E ->
+  0 <= c14_map_left E idx < c14_product E.
+Proof.
+  intros. rewrite c14_left_as_right, c14_product_prod, <- c14_prod_rev, <- c14_product_prod.
+  apply c14_right_in_range. apply c14_valid_rev; auto.
+Qed.
+
+(* ------------------------------------------------------------------ injectivity (mixed-radix uniqueness) *)
+Lemma c14_spec_right_inj : forall i E, c14_valid i E -> forall j, c14_valid j E ->
+  c14_spec_right E i = c14_spec_right E j -> i = j.
+Proof.
+  induction 1 as [|x e i E Hx H IH]; intros j Hj Heq; inversion Hj as [|y e' j' E' Hy Hj']; subst; [reflexivity|].
+  unfold c14_spec_right in *. simpl in Heq.
+  pose proof (c14_spec_right_range _ _ H) as R1. pose proof (c14_spec_right_range _ _ Hj') as R2.
+  unfold c14_spec_right in R1, R2.
+  assert (x = y) by nia. subst y.
+  f_equal. apply IH; auto. unfold c14_spec_right. lia.
+Qed.
+
+Lemma c14_right_injective : forall E i j, c14_valid i E -> c14_valid j E ->
+  c14_map_right E i = c14_map_right E j -> i = j.
+Proof.
+  intros E i j Hi Hj. rewrite !c14_right_formula by (eapply c14_valid_length; eauto).
+  apply c14_spec_right_inj; auto.
+Qed.
+
+Lemma c14_left_injective : forall E i j, c14_valid i E -> c14_valid j E ->
+  c14_map_left E i = c14_map_left E j -> i = j.
+Proof.
+  intros E i j Hi Hj H. rewrite !c14_left_as_right in H.
+  apply c14_right_injective in H; auto using c14_valid_rev.
+  rewrite <- (rev_involutive i), <- (rev_involutive j). congruence.
+Qed.
+
+(* ------------------------------------------------------------------ surjectivity: inverse digit decomposition *)
+Lemma c14_unrank_right_ok : forall E, c14_nonneg E -> forall k, 0 <= k < c14_prod E ->
+  c14_valid (c14_unrank_right E k) E /\ c14_spec_right E (c14_unrank_right E k) = k.
+Proof.
+  induction 1 as [|e E He H IH]; intros k Hk; simpl in *.
+  - split; [constructor|]. unfold c14_spec_right; simpl. lia.
+  - pose proof (c14_prod_nonneg _ H) as HP.
+    assert (0 < c14_prod E) by nia.
+    destruct (IH (k mod c14_prod E)) as [V S]; [apply Z.mod_pos_bound; lia|].
+    split.
+    + constructor; auto. split; [apply Z.div_pos; lia|]. apply Z.div_lt_upper_bound; nia.
+    + unfold c14_spec_right in *. simpl. rewrite S.
+      pose proof (Z.div_mod k (c14_prod E)). nia.
+Qed.
+
+Lemma c14_right_exhaustive : forall E, c14_nonneg E -> forall k, 0 <= k < c14_product E ->
+  exists idx, c14_valid idx E /\ c14_map_right E idx = k.
+Proof.
+  intros E HE k Hk. rewrite c14_product_prod in Hk.
+  destruct (c14_unrank_right_ok E HE k Hk) as [V S].
+  exists (c14_unrank_right E k). split; auto.
+  rewrite c14_right_formula; auto. eapply c14_valid_length; eauto.
+Qed.
+
+Lemma c14_nonneg_rev : forall E, c14_nonneg E -> c14_nonneg (rev E).
+Proof. intros E H. unfold c14_nonneg in *. apply Forall_rev; auto. Qed.
+
+Lemma c14_left_exhaustive : forall E, c14_nonneg E -> forall k, 0 <= k < c14_product E ->
+  exists idx, c14_valid idx E /\ c14_map_left E idx = k.
+Proof.
+  intros E HE k Hk.
+  destruct (c14_right_exhaustive (rev E) (c14_nonneg_rev _ HE) k) as [idx [V S]].
+  { rewrite c14_product_prod, c14_prod_rev, <- c14_product_prod. auto. }
+  exists (rev idx). split.
+  - rewrite <- (rev_involutive E). apply c14_valid_rev; auto.
+  - rewrite c14_left_as_right, rev_involutive. auto.
+Qed.
+
+(* the explicit inverse for layout_left: least significant digit first *)
+Lemma c14_unrank_left_ok : forall E, c14_nonneg E -> forall k, 0 <= k < c14_prod E ->
+  c14_valid (c14_unrank_left E k) E /\ c14_spec_left E (c14_unrank_left E k) = k.
+Proof.
+  induction 1 as [|e E He H IH]; intros k Hk; simpl in *.
+  - split; [constructor|]. unfold c14_spec_left; simpl. lia.
+  - pose proof (c14_prod_nonneg _ H) as HP.
+    assert (0 < e) by nia.
+    destruct (IH (k / e)) as [V S].
+    { split; [apply Z.div_pos; lia|]. apply Z.div_lt_upper_bound; nia. }
+    split.
+    + constructor; auto. apply Z.mod_pos_bound; lia.
+    + rewrite c14_spec_left_cons, S. pose proof (Z.div_mod k e). nia.
+Qed.
+
+(* ------------------------------------------------------------------ zero extents *)
+Lemma c14_zero_extent_prod : forall E, In 0 E -> c14_prod E = 0.
+Proof.
+  induction E as [|e E IH]; intros H; [destruct H|].
+  cbn [c14_prod]. destruct H as [H|H]; [subst; ring|rewrite IH; auto; ring].
+Qed.
+
+Lemma c14_zero_extent_no_valid : forall E idx, In 0 E -> ~ c14_valid idx E.
+Proof.
+  intros E idx H V. pose proof (c14_valid_prod_pos _ _ V) as P. rewrite (c14_zero_extent_prod _ H) in P. lia.
+Qed.
+
+(* ------------------------------------------------------------------ strides *)
+Lemma c14_stride_right_nth : forall E r, (r < length E)%nat ->
+  c14_stride_right E r = nth r (c14_spec_strides_right E) 0.
+Proof.
+  unfold c14_stride_right. induction E as [|e E IH]; intros r Hr; simpl in *; [lia|].
+  destruct r; simpl.
+  - rewrite c14_fold_mul. lia.
+  - destruct E as [|e' E']; simpl in *; [lia|]. apply (IH r). lia.
+Qed.
+
+Lemma c14_stride_left_nth_gen : forall E a r, (r < length E)%nat ->
+  a * c14_prod (firstn r E) = nth r (c14_spec_strides_left_from a E) 0.
+Proof.
+  induction E as [|e E IH]; intros a r Hr; [simpl in Hr; lia|].
+  destruct r; cbn [firstn c14_prod nth c14_spec_strides_left_from]; [ring|].
+  rewrite <- IH by (simpl in Hr; lia). ring.
+Qed.
+
+Lemma c14_stride_left_nth : forall E r, (r < length E)%nat ->
+  c14_stride_left E r = nth r (c14_spec_strides_left E) 0.
+Proof.
+  intros. unfold c14_stride_left, c14_spec_strides_left. rewrite <- c14_stride_left_nth_gen; auto.
+  rewrite c14_fold_mul. reflexivity.
+Qed.
+
+Lemma c14_dot_bump : forall idx s r, (r < length idx)%nat -> length idx = length s ->
+  c14_dot (c14_bump idx r) s = c14_dot idx s + nth r s 0.
+Proof.
+  induction idx as [|i idx IH]; intros [|x s] r Hr Hl; simpl in *; try lia.
+  destruct r; simpl; [ring|]. rewrite IH by lia. ring.
+Qed.
+
+Lemma c14_bump_length : forall idx r, length (c14_bump idx r) = length idx.
+Proof. induction idx; intros [|r]; simpl; auto. Qed.
+
+Lemma c14_right_step : forall E idx r, length idx = length E -> (r < length E)%nat ->
+  c14_map_right E (c14_bump idx r) = c14_map_right E idx + c14_stride_right E r.
+Proof.
+  intros. rewrite !c14_right_formula by (rewrite ?c14_bump_length; auto).
+  unfold c14_spec_right. rewrite c14_dot_bump, c14_stride_right_nth; auto; try lia.
+  rewrite c14_strides_right_length; auto.
+Qed.
+
+Lemma c14_left_step : forall E idx r, length idx = length E -> (r < length E)%nat ->
+  c14_map_left E (c14_bump idx r) = c14_map_left E idx + c14_stride_left E r.
+Proof.
+  intros. rewrite !c14_left_formula by (rewrite ?c14_bump_length; auto).
+  unfold c14_spec_left. rewrite c14_dot_bump, c14_stride_left_nth; auto; try lia.
+  unfold c14_spec_strides_left. rewrite c14_strides_left_length; auto.
+Qed.
+
+(* ------------------------------------------------------------------ layout_stride *)
+Lemma c14_map_stride_dot : forall St idx, c14_map_stride St idx = c14_dot idx St.
+Proof.
+  unfold c14_map_stride. intros St idx; revert St.
+  induction idx as [|i idx IH]; intros [|s St]; simpl; auto. rewrite IH. reflexivity.
+Qed.
+
+Lemma c14_stride_step : forall St idx r, length idx = length St -> (r < length idx)%nat ->
+  c14_map_stride St (c14_bump idx r) = c14_map_stride St idx + nth r St 0.
+Proof. intros. rewrite !c14_map_stride_dot. apply c14_dot_bump; auto. Qed.
+
+Definition c14_sum_span (E St : list Z) : Z := c14_dot (map (fun e => e - 1) E) St.
+
+Lemma c14_span_fold : forall E St a,
+  fold_left (fun res es => res + (fst es - 1) * snd es) (combine E St) a = a + c14_sum_span E St.
+Proof.
+  unfold c14_sum_span. induction E as [|e E IH]; intros [|s St] a; simpl; try lia.
+  rewrite IH. ring.
+Qed.
+
+Lemma c14_span_size_stride_spec : forall E St, E <> [] ->
+  c14_span_size_stride E St = if c14_prod E =? 0 then 0 else 1 + c14_sum_span E St.
+Proof.
+  intros [|e E] St H; [congruence|]. unfold c14_span_size_stride.
+  rewrite c14_product_prod. destruct (c14_prod (e :: E) =? 0); auto. apply c14_span_fold.
+Qed.
+
+Lemma c14_dot_le_sum_span : forall idx E, c14_valid idx E -> forall St, Forall (fun s => 0 <= s) St ->
+  0 <= c14_dot idx St <= c14_sum_span E St.
+Proof.
+  unfold c14_sum_span.
+  induction 1 as [|i e idx E Hi H IH]; intros St HS; simpl; [lia|].
+  destruct St as [|s St]; [lia|]. inversion HS; subst. specialize (IH St H3). nia.
+Qed.
+
+Lemma c14_stride_in_range : forall idx E St, c14_valid idx E -> Forall (fun s => 0 <= s) St ->
+  0 <= c14_map_stride St idx < c14_span_size_stride E St.
+Proof.
+  intros idx E St V HS. rewrite c14_map_stride_dot.
+  pose proof (c14_dot_le_sum_span _ _ V _ HS).
+  destruct E as [|e E].
+  - inversion V; subst. simpl. lia.
+  - rewrite c14_span_size_stride_spec by congruence.
+    pose proof (c14_valid_prod_pos _ _ V).
+    destruct (Z.eqb_spec (c14_prod (e :: E)) 0); lia.
+Qed.
+
+(* uniqueness of a strided mapping under the chain condition (dimensions ordered by decreasing stride) *)
+Lemma c14_chain_bound : forall idx E, c14_valid idx E -> forall St, length St = length E ->
+  c14_stride_chain (combine E St) -> 0 <= c14_dot idx St < c14_tail_bound (combine E St).
+Proof.
+  induction 1 as [|i e idx E Hi H IH]; intros St HL HC; simpl in *; [lia|].
+  destruct St as [|s St]; simpl in *; [discriminate|].
+  destruct HC as [HB HC]. specialize (IH St ltac:(lia) HC). nia.
+Qed.
+
+Lemma c14_chain_injective : forall i E, c14_valid i E -> forall j St, c14_valid j E -> length St = length E ->
+  c14_stride_chain (combine E St) -> c14_dot i St = c14_dot j St -> i = j.
+Proof.
+  induction 1 as [|x e i E Hx H IH]; intros j St Hj HL HC Heq; inversion Hj as [|y e' j' E' Hy Hj']; subst; [reflexivity|].
+  destruct St as [|s St]; simpl in *; [discriminate|].
+  destruct HC as [HB HC].
+  pose proof (c14_chain_bound _ _ H St ltac:(lia) HC) as B1.
+  pose proof (c14_chain_bound _ _ Hj' St ltac:(lia) HC) as B2.
+  remember (c14_dot i St) as X. remember (c14_dot j' St) as Y. remember (c14_tail_bound (combine E St)) as B.
+  assert (x = y).
+  { destruct (Z.lt_trichotomy x y) as [L|[L|L]]; auto; exfalso.
+    - assert (s * (x + 1) <= s * y) by (apply Z.mul_le_mono_nonneg_l; lia). lia.
+    - assert (s * (y + 1) <= s * x) by (apply Z.mul_le_mono_nonneg_l; lia). lia. }
+  subst y. f_equal. subst X Y. apply (IH j' St); auto; lia.
+Qed.
+
+Lemma c14_stride_injective : forall E St i j, c14_valid i E -> c14_valid j E -> length St = length E ->
+  c14_stride_chain (combine E St) -> c14_map_stride St i = c14_map_stride St j -> i = j.
+Proof. intros E St i j Hi Hj HL HC. rewrite !c14_map_stride_dot. eapply c14_chain_injective; eauto. Qed.
+
+Lemma c14_combine_rev : forall (A B : list Z), length A = length B -> combine (rev A) (rev B) = rev (combine A B).
+Proof.
+  induction A as [|a A IH]; intros [|b B] H; simpl in *; try discriminate; [reflexivity|].
+  rewrite <- IH by lia.
+  assert (G : forall (X Y : list Z) x y, length X = length Y -> combine (X ++ [x]) (Y ++ [y]) = combine X Y ++ [(x, y)]).
+  { clear. induction X as [|x0 X IH]; intros [|y0 Y] x y H; simpl in *; try discriminate; [reflexivity|]. rewrite IH by lia. reflexivity. }
+  apply G. rewrite !rev_length. lia.
+Qed.
+
+(* ... and with the dimensions listed by increasing stride (layout_left-like, padded or not) *)
+Lemma c14_stride_injective_asc : forall E St i j, c14_valid i E -> c14_valid j E -> length St = length E ->
+  c14_stride_chain_asc (combine E St) -> c14_map_stride St i = c14_map_stride St j -> i = j.
+Proof.
+  intros E St i j Hi Hj HL HC Heq. unfold c14_stride_chain_asc in HC.
+  rewrite <- c14_combine_rev in HC by lia.
+  rewrite !c14_map_stride_dot in Heq.
+  pose proof (c14_valid_length _ _ Hi). pose proof (c14_valid_length _ _ Hj).
+  rewrite <- (c14_dot_rev i), <- (c14_dot_rev j) in Heq by lia.
+  apply (c14_chain_injective _ _ (c14_valid_rev _ _ Hi) _ _ (c14_valid_rev _ _ Hj)) in Heq; auto.
+  - rewrite <- (rev_involutive i), <- (rev_involutive j). congruence.
+  - rewrite !rev_length. auto.
+Qed.
+
+(* the canonical strides satisfy the chain condition, so left/right are instances *)
+Lemma c14_chain_right : forall E, c14_nonneg E -> Forall (fun e => 1 <= e) E ->
+  c14_stride_chain (combine E (c14_spec_strides_right E)).
+Proof.
+  induction E as [|e E IH]; intros HN HP; simpl; [auto|].
+  inversion HN; inversion HP; subst. split; [|apply IH; auto].
+  destruct E as [|e' E']; simpl; lia.
+Qed.
+
+(* ------------------------------------------------------------------ machine integers: no intermediate of the Horner loop exceeds the span size *)
+Lemma c14_scan_bound : forall rest Et, c14_valid rest Et -> forall v B, 0 <= v < B ->
+  Forall (fun x => 0 <= x < B * c14_prod Et) (c14_scan_left v (combine rest Et)).
+Proof.
+  induction 1 as [|i e rest Et Hi H IH]; intros v B Hv; simpl.
+  - constructor; [lia|constructor].
+  - pose proof (c14_valid_prod_pos _ _ H).
+    assert (1 <= e * c14_prod Et) by nia.
+    assert (B * 1 <= B * (e * c14_prod Et)) by (apply Z.mul_le_mono_nonneg_l; lia).
+    constructor; [lia|].
+    specialize (IH (c14_horner_step v (i, e)) (B * e)).
+    replace (B * (e * c14_prod Et)) with (B * e * c14_prod Et) by ring.
+    apply IH. unfold c14_horner_step; simpl. nia.
+Qed.
+
+Lemma c14_right_trace_bound : forall idx E, c14_valid idx E ->
+  Forall (fun x => 0 <= x < c14_product E) (c14_map_right_trace E idx).
+Proof.
+  intros idx E V. rewrite c14_product_prod. inversion V as [|i e rest Et Hi H]; subst; simpl.
+  - constructor; [lia|constructor].
+  - replace (e * c14_prod Et) with (e * c14_prod Et) by ring. apply c14_scan_bound; auto.
+Qed.
+
+Lemma c14_left_trace_bound : forall idx E, c14_valid idx E ->
+  Forall (fun x => 0 <= x < c14_product E) (c14_map_left_trace E idx).
+Proof.
+  intros idx E V. rewrite c14_product_prod, <- c14_prod_rev, <- c14_product_prod.
+  apply (c14_right_trace_bound _ _ (c14_valid_rev _ _ V)).
+Qed.
+
+Lemma c14_trace_last_right : forall E idx, last (c14_map_right_trace E idx) 0 = c14_map_right E idx.
+Proof.
+  intros E [|i rest]; simpl; [reflexivity|].
+  generalize (combine rest (tl E)) i. induction l as [|x l IH]; intros v; simpl; [reflexivity|].
+  rewrite <- IH. destruct l; reflexivity.
+Qed.
+
+(* ------------------------------------------------------------------ the three layouts together *)
+Lemma c14_in_range : forall m idx, c14_wf m -> c14_valid idx (c14_ext m) ->
+  0 <= c14_map m idx < c14_required_span_size m.
+Proof.
+  intros [l E St] idx W V. unfold c14_wf, c14_map, c14_required_span_size in *. simpl in *.
+  destruct l.
+  - apply c14_left_in_range; auto.
+  - apply c14_right_in_range; auto.
+  - apply c14_stride_in_range; tauto.
+Qed.
+
+Lemma c14_injective : forall m i j, c14_unique m -> c14_valid i (c14_ext m) -> c14_valid j (c14_ext m) ->
+  c14_map m i = c14_map m j -> i = j.
+Proof.
+  intros [l E St] i j U Vi Vj. unfold c14_unique, c14_map in *. simpl in *.
+  destruct l.
+  - apply c14_left_injective; auto.
+  - apply c14_right_injective; auto.
+  - destruct U as [HL [C|C]].
+    + eapply c14_stride_injective; eauto.
+    + eapply c14_stride_injective_asc; eauto.
+Qed.
+
+Lemma c14_exhaustive : forall m, c14_lay m <> C14_Stride -> c14_nonneg (c14_ext m) ->
+  forall k, 0 <= k < c14_required_span_size m ->
+  exists idx, c14_valid idx (c14_ext m) /\ c14_map m idx = k.
+Proof.
+  intros [l E St] HS HN k Hk. unfold c14_map, c14_required_span_size in *. simpl in *.
+  destruct l; try congruence.
+  - apply c14_left_exhaustive; auto.
+  - apply c14_right_exhaustive; auto.
+Qed.
+
+Lemma c14_step : forall m idx r, c14_wf m -> length idx = length (c14_ext m) -> (r < length (c14_ext m))%nat ->
+  c14_map m (c14_bump idx r) = c14_map m idx + c14_stride m r.
+Proof.
+  intros [l E St] idx r W HL Hr. unfold c14_wf, c14_map, c14_stride in *. simpl in *.
+  destruct l.
+  - apply c14_left_step; auto.
+  - apply c14_right_step; auto.
+  - apply c14_stride_step; lia.
+Qed.
+
+Lemma c14_zero_extent : forall m, In 0 (c14_ext m) ->
+  c14_required_span_size m = 0 /\ forall idx, ~ c14_valid idx (c14_ext m).
+Proof.
+  intros [l E St] H. unfold c14_required_span_size. simpl in *.
+  split; [|intros; apply c14_zero_extent_no_valid; auto].
+  pose proof (c14_zero_extent_prod _ H) as P.
+  destruct l; try (rewrite c14_product_prod; auto).
+  destruct E as [|e E]; [destruct H|].
+  rewrite c14_span_size_stride_spec by congruence. rewrite P. reflexivity.
+Qed.
+
+(* canonical strides make layout_stride coincide with layout_right / layout_left on all tuples *)
+Lemma c14_stride_canonical_right : forall E idx, length idx = length E ->
+  c14_map_stride (c14_spec_strides_right E) idx = c14_map_right E idx.
+Proof. intros. rewrite c14_map_stride_dot, c14_right_formula; auto. Qed.
+Lemma c14_stride_canonical_left : forall E idx, length idx = length E ->
+  c14_map_stride (c14_spec_strides_left E) idx = c14_map_left E idx.
+Proof. intros. rewrite c14_map_stride_dot, c14_left_formula; auto. Qed.
+
+(* ------------------------------------------------------------------ non-vacuity witnesses *)
+Lemma c14_ex_valid : c14_valid [1; 2; 3] [2; 3; 4] /\ c14_map_right [2; 3; 4] [1; 2; 3] = 23 /\ c14_map_left [2; 3; 4] [1; 2; 3] = 23.
+Proof. split; [repeat constructor; lia|split; vm_compute; reflexivity]. Qed.
+Lemma c14_ex_unique_padded :
+  c14_unique (C14_Mapping C14_Stride [2; 3] [10; 2]) /\ c14_wf (C14_Mapping C14_Stride [2; 3] [10; 2]) /\
+  c14_required_span_size (C14_Mapping C14_Stride [2; 3] [10; 2]) = 15.
+Proof.
+  split; [|split].
+  - unfold c14_unique; simpl. split; [reflexivity|left]. unfold c14_tail_bound; simpl. lia.
+  - unfold c14_wf; simpl. split; [reflexivity|repeat constructor; lia].
+  - vm_compute. reflexivity.
+Qed.
